@@ -28,6 +28,13 @@ func New(maxProcessing dag.Metric, warning func(received dag.Metric, processing 
 
 func (s *DataSemaphore) Acquire(weight dag.Metric, timeout time.Duration) bool {
 	deadline := time.Now().Add(timeout)
+	// wake up the waiter when the deadline passes, even if nobody releases
+	timer := time.AfterFunc(timeout, func() {
+		s.mu.Lock()
+		defer s.mu.Unlock()
+		s.cond.Broadcast()
+	})
+	defer timer.Stop()
 	s.mu.Lock()
 	defer s.mu.Unlock()
 	for !s.tryAcquire(weight) {
